@@ -1636,7 +1636,8 @@ func matchRegex(re *syntax.Regexp) ([]string, bool) {
 			sz += int(re.Rune[i+1]) - int(re.Rune[i]) + 1
 		}
 
-		if sz > maxLiterals {
+		if sz > maxLiterals || sz == 0 {
+			// An empty class matches nothing at all, which no list of literals can express.
 			return nil, false
 		}
 
